@@ -179,6 +179,25 @@ def crossed_round(r, name, k, regular, steps, jitter, timeout):
     return (name, k, paths, lists, jitter, timeout)
 
 
+def stress_round(name, k, per_thread, jitter, timeout):
+    """k threads, each compiling `per_thread` staged programs in a row: even threads the nested-pattern program of a
+    `staged` pair, odd threads the flat one (fresh identifiers per position)"""
+    d = os.path.join(c15.WORK, "C19gen", name)
+    os.makedirs(d, exist_ok=True)
+    paths, lists = [], [[] for _ in range(k)]
+    for j in range(per_thread):
+        for g in range(max(1, k // 2)):
+            tag = f"{name.replace('-', '_')}_j{j}g{g}"
+            for i, src in enumerate(crossed_pair("staged", tag)):
+                p = os.path.join(d, f"staged_{tag}_{'AB'[i]}.mmm")
+                if not os.path.exists(p) or open(p).read() != src:
+                    open(p, "w").write(src)
+                paths.append(p)
+                if 2 * g + i < k:
+                    lists[2 * g + i].append(len(paths) - 1)
+    return (name, k, paths, lists, jitter, timeout)
+
+
 def make_round(r, name, k, pool, per_thread, jitter, timeout):
     paths = r.sample(pool, min(len(pool), max(4, k)))
     lists = []
@@ -242,6 +261,12 @@ def main(ctx, args):
             jobs.append(make_round(r, f"K{k}-heavy", k, heavy or cheap, 2 if quick else 4, ctx.seed + k, 600))
             for i in range(ncross):
                 jobs.append(crossed_round(r, f"X{ctx.seed}K{k}-{i}", k, cheap[:60], 3, ctx.seed * 977 + k * 31 + i, 240))
+        if getattr(ctx, "_pending_obligation", None) or not quick:
+            # the translator found shared state outside the reviewed inventory (or: thorough tier): search harder for a failing
+            # input with rounds in which EVERY thread keeps compiling staged programs (nested / flat tuple patterns in quoted
+            # code: temporaries, counters and caches of the macro stage are exercised back to back on all threads)
+            for i in range(6 if quick else 4):
+                jobs.append(stress_round(f"S{ctx.seed}-{i}", 16, 24, ctx.seed * 7 + i, 600))
         gen_paths = sorted(set(p for j in jobs for p in j[2] if p not in refs))
         refs.update(solo_refs(gen_paths))
         jobs = [j + (refs,) for j in jobs]
